@@ -418,7 +418,7 @@ pub fn all() -> Vec<Harness> {
             bound_quick: 1,
             bound_thorough: 2,
             cap_quick: 40_000,
-            cap_thorough: 1_500_000,
+            cap_thorough: 600_000,
             window: Some(40),
             body: h1_body,
             judge: h1_judge,
@@ -431,7 +431,7 @@ pub fn all() -> Vec<Harness> {
             bound_quick: 1,
             bound_thorough: 2,
             cap_quick: 40_000,
-            cap_thorough: 1_500_000,
+            cap_thorough: 600_000,
             window: Some(40),
             body: h1b_body,
             judge: h1_judge,
@@ -444,7 +444,7 @@ pub fn all() -> Vec<Harness> {
             bound_quick: 1,
             bound_thorough: 2,
             cap_quick: 40_000,
-            cap_thorough: 1_500_000,
+            cap_thorough: 600_000,
             window: Some(40),
             body: h2_body,
             judge: h2_judge,
@@ -457,7 +457,7 @@ pub fn all() -> Vec<Harness> {
             bound_quick: 1,
             bound_thorough: 2,
             cap_quick: 40_000,
-            cap_thorough: 1_500_000,
+            cap_thorough: 600_000,
             window: Some(40),
             body: h2b_body,
             judge: h2_judge,
@@ -496,7 +496,7 @@ pub fn all() -> Vec<Harness> {
             bound_quick: 1,
             bound_thorough: 2,
             cap_quick: 40_000,
-            cap_thorough: 1_500_000,
+            cap_thorough: 600_000,
             window: Some(40),
             body: h4_body,
             judge: h4_judge,
@@ -509,7 +509,7 @@ pub fn all() -> Vec<Harness> {
             bound_quick: 1,
             bound_thorough: 2,
             cap_quick: 40_000,
-            cap_thorough: 1_500_000,
+            cap_thorough: 600_000,
             window: Some(40),
             body: h6_body,
             judge: h6_judge,
@@ -522,7 +522,7 @@ pub fn all() -> Vec<Harness> {
             bound_quick: 1,
             bound_thorough: 2,
             cap_quick: 40_000,
-            cap_thorough: 1_500_000,
+            cap_thorough: 600_000,
             window: Some(40),
             body: h5_body,
             judge: h5_judge,
